@@ -169,7 +169,7 @@ def _trace_batch(args):
             bad = j.get('bad')
             if isinstance(bad, dict):
                 bad = []
-            reports[j['uid']] = {'div': j['div'], 'bad': bad}
+            reports[j['uid']] = {'div': j['div'], 'bad': bad, 'pred': j.get('pred')}
     return {'reports': reports, 'wall_s': r['wall_s'], 'error': r['error'], 'generated': r['generated'],
             'timed_out': r['timed_out'], 'dir': d, 'cmd': r['cmd']}
 
